@@ -202,6 +202,8 @@ class Matrix:
         if rhs.shape[0] != self.shape[0]:
             raise MatrixError('right-hand size shape does not match matrix shape')
         rhsnorm = numpy.linalg.norm(rhs, axis=0).max()
+        if not numpy.isfinite(rhsnorm):
+            raise MatrixError('right-hand side is not finite')
         atol = max(atol, rtol * rhsnorm)
         if rhsnorm <= atol:
             if rhsnorm: # rhs != 0; solution is inexact
